@@ -227,7 +227,7 @@ static void process(const std::string& spec, const std::string& bytes, const rea
     {
         // positions: all of them for small streams, otherwise a sample that always contains the first 64 bytes
         std::vector<size_t> positions;
-        const size_t        cap = g_thorough ? (ti.is_tensor ? 4000 : 1500) : ti.is_tensor ? 600 : 160;
+        const size_t        cap = g_thorough ? (ti.is_tensor ? 4000 : 1000) : ti.is_tensor ? 600 : 160;
         if (n <= cap)
         {
             for (size_t p = 0; p < n; ++p) positions.push_back(p);
@@ -247,6 +247,8 @@ static void process(const std::string& spec, const std::string& bytes, const rea
             if (news[2] == old || news[2] == news[0] || news[2] == news[1]) news[2] = static_cast<unsigned char>(old + 3U);
             const int nvar = ti.is_tensor ? 3 : 2;
             for (int i = 0; i < nvar; ++i) cs.push_back({p, news[i == 1 && !ti.is_tensor ? 2 : i]});
+            // boundary: the next smaller value of a header field (sizeof - 1, rank - 1, dim - 1, ...)
+            if (ti.is_tensor && old > 1 && tensor_region(ti.rank, p) != 5) cs.push_back({p, static_cast<unsigned char>(old - 1U)});
             if (!ti.is_tensor && (p % 4) == 3) cs.push_back({p, news[1]}); // sign / top bit of many fields
         }
     }
@@ -279,20 +281,18 @@ static void process(const std::string& spec, const std::string& bytes, const rea
                 FAIL("PAYLOAD %s altered payload byte %zu -> %d accepted hex=%s", spec.c_str(), c.pos,
                      static_cast<int>(c.byte), hex(bytes).c_str());
             }
-            else if (re != bytes)
+            else if (region == 2 && re != bytes && n == 20 + 4 * ti.rank)
             {
-                // the reader accepted a stream with an altered header and produced a *different* tensor
-                if (region == 2 && n == 20 + 4 * ti.rank)
-                {
-                    // an empty tensor whose dimensions changed (the hash only covers the elements): counted, see notes
-                    std::printf("EMPTYDIMS %s pos=%zu byte=%d hex=%s re=%s\n", spec.c_str(), c.pos, static_cast<int>(c.byte),
-                                hex(bytes).c_str(), hex(re).c_str());
-                }
-                else
-                {
-                    FAIL("HEADER %s altered header byte %zu -> %d accepted as another tensor hex=%s re=%s", spec.c_str(),
-                         c.pos, static_cast<int>(c.byte), hex(bytes).c_str(), hex(re).c_str());
-                }
+                // an EMPTY tensor whose dimensions changed but still multiply to zero (the hash only covers the
+                // elements): accepted as a tensor of another shape -- counted, see notes/C15.md and C15_dims_corruption_refuted
+                std::printf("EMPTYDIMS %s pos=%zu byte=%d hex=%s re=%s\n", spec.c_str(), c.pos, static_cast<int>(c.byte),
+                            hex(bytes).c_str(), hex(re).c_str());
+            }
+            else
+            {
+                // version / rank / sizeof / stored hash altered, or the dimensions of a non-empty tensor: must be rejected
+                FAIL("HEADER %s altered header byte %zu -> %d (region %d) accepted hex=%s re=%s", spec.c_str(), c.pos,
+                     static_cast<int>(c.byte), region, hex(bytes).c_str(), hex(re).c_str());
             }
         }
     }
@@ -669,7 +669,7 @@ void factory_objects(const char* kind)
 {
     const auto ids = tbase::all().ids();
     std::printf("IDS %s %s\n", kind, joins(ids).c_str());
-    const int reps = g_thorough ? 3 : 1;
+    const int reps = g_thorough ? 2 : 1;
     for (const auto& id : ids)
     {
         for (int rep = 0; rep < reps; ++rep)
